@@ -15,6 +15,7 @@ from . import pse
 VERIF = os.path.dirname(os.path.dirname(os.path.abspath(__file__)))
 PROPS = ["C%02d" % i for i in range(1, 21)]
 
+REPO = os.environ.get("VERIF_REPO", "/repo").rstrip("/")
 EXIT_OK, EXIT_VIOLATION, EXIT_INCONCLUSIVE, EXIT_HARNESS = 0, 1, 2, 3
 
 
@@ -66,8 +67,8 @@ def _profiler(frame, event, arg):
     if event == "call":
         co = frame.f_code
         fn = co.co_filename
-        if fn.startswith("/repo/ascmhl/"):
-            _PROFILE_FUNCS.add("%s:%s" % (fn[len("/repo/"):], co.co_qualname))
+        if fn.startswith(REPO + "/ascmhl/"):
+            _PROFILE_FUNCS.add("%s:%s" % (fn[len(REPO) + 1:], co.co_qualname))
 
 
 def _explore(args):
@@ -464,8 +465,8 @@ def main(argv=None):
         from . import replay
         return replay.main(["--file", a.replay])
     import ascmhl
-    if os.path.dirname(os.path.abspath(ascmhl.__file__)) != "/repo/ascmhl":
-        print("HARNESS-ERROR ascmhl imported from %s, not /repo" % ascmhl.__file__)
+    if os.path.dirname(os.path.abspath(ascmhl.__file__)) != REPO + "/ascmhl":
+        print("HARNESS-ERROR ascmhl imported from %s, not %s" % (ascmhl.__file__, REPO))
         return EXIT_HARNESS
     if a.update_witness:
         update_witness(a.prop.upper(), a.tier)
